@@ -22,6 +22,10 @@ pub struct Cfg {
     pub count: u32,
     pub carousel: bool,
     pub interleave: u8,
+    /// EXT_CENC in the object's packets (independent of the FTI signalling)
+    pub inband_cenc: bool,
+    /// Content-MD5 announced and checked
+    pub md5: bool,
 }
 
 impl Cfg {
@@ -31,7 +35,8 @@ impl Cfg {
         o.count = self.count;
         o.cenc = self.cenc;
         o.text = self.cenc != 0;
-        o.inband_cenc = self.inband_fti;
+        o.inband_cenc = self.inband_cenc;
+        o.md5 = self.md5;
         if self.carousel {
             o.carousel = Some(Carousel::Delay(500));
         }
@@ -141,8 +146,8 @@ pub fn run_seq(p: &Prepared, seq: &[usize], corrupt: Option<&Corrupt>, g: &mut G
             g.flag_first += 1;
         }
     }
-    let out = deliver_seq(&pk, recv_config(true), true);
-    let sch = format!("{:?}", p.cfg.scheme);
+    let out = deliver_seq(&pk, recv_config(true), p.cfg.md5);
+    let sch = format!("{:?}{}", p.cfg.scheme, if p.cfg.md5 { "" } else { "/no-md5" });
     if let Some(pm) = out.panic {
         return Some((format!("C03/panic/{}", panic_sig(&pm)), format!("panic: {}", pm)));
     }
@@ -202,7 +207,7 @@ fn run_corrupt_expect(p: &Prepared, seq: &[usize], c: &Corrupt, g: &mut G) -> Op
         let i = p.distinct[d];
         pk.push((p.rec.pkts[0].0 + Duration::from_millis(n as u64), if d == c.pkt { &cb[..] } else { &p.rec.pkts[i].1[..] }));
     }
-    let out = deliver_seq(&pk, recv_config(true), true);
+    let out = deliver_seq(&pk, recv_config(true), p.cfg.md5);
     let ws: Vec<&WriterLog> = out.writers.iter().filter(|w| w.toi == p.toi).collect();
     let any_error = ws.iter().any(|w| matches!(w.terminal(), Terminal::Error | Terminal::Interrupted));
     let any_complete = ws.iter().any(|w| w.is_complete());
@@ -222,7 +227,7 @@ fn run_corrupt_expect(p: &Prepared, seq: &[usize], c: &Corrupt, g: &mut G) -> Op
 }
 
 fn configs(thorough: bool) -> Vec<Cfg> {
-    let c = |scheme, e, b, parity, len, cenc, inband_fti, count, carousel, interleave| Cfg { scheme, e, b, parity, len, cenc, inband_fti, count, carousel, interleave };
+    let c = |scheme, e, b, parity, len, cenc, inband_fti, count, carousel, interleave| Cfg { scheme, e, b, parity, len, cenc, inband_fti, count, carousel, interleave, inband_cenc: inband_fti, md5: true };
     let mut v = vec![
         c(Scheme::NoCode, 4, 2, 0, 11, 0, true, 1, false, 1),
         c(Scheme::NoCode, 4, 2, 0, 11, 0, false, 1, false, 1),
@@ -245,6 +250,22 @@ fn configs(thorough: bool) -> Vec<Cfg> {
         c(Scheme::Rs28, 4, 2, 1, 15, 0, true, 1, false, 2),
         c(Scheme::Rs28Us, 4, 2, 1, 15, 0, false, 1, false, 1),
     ];
+    // every signalling combination of FTI x CENC, with and without MD5, for encoded objects
+    for (scheme, e, b, parity, len, cenc) in [(Scheme::NoCode, 16u16, 2u16, 0u16, 10usize, 3u8), (Scheme::NoCode, 8, 2, 0, 12, 2), (Scheme::Rs28, 16, 2, 1, 10, 1), (Scheme::NoCode, 4, 2, 0, 11, 0)] {
+        for inband_fti in [true, false] {
+            for inband_cenc in [true, false] {
+                for md5 in [true, false] {
+                    if inband_fti == inband_cenc && md5 {
+                        continue; // already above
+                    }
+                    let mut x = c(scheme, e, b, parity, len, cenc, inband_fti, 1, false, 1);
+                    x.inband_cenc = inband_cenc;
+                    x.md5 = md5;
+                    v.push(x);
+                }
+            }
+        }
+    }
     if thorough {
         v.extend([
             c(Scheme::Rs28, 4, 3, 1, 23, 0, true, 1, false, 2),
@@ -350,6 +371,7 @@ pub fn run(thorough: bool) -> i32 {
                         }
                     }
                 }
+                _ if !cfg.md5 => {}
                 _ => {
                     // corruption: every object packet x every payload byte x masks, and truncations
                     let all: Vec<usize> = (0..n).collect();
